@@ -78,6 +78,7 @@ func checkEncoded(levels []uint8, w int, fault int) {
 		enc.Write(l)
 	}
 	out := enc.Bytes()
+	vObserve(out)
 	dec, legal, ok := refDecode(out, w)
 	vAssert(ok, "well-formed stream (length prefix, headers, payload sizes)")
 	if !ok {
@@ -114,6 +115,7 @@ func checkEncoded(levels []uint8, w int, fault int) {
 	}
 	vAssert(used == len(out), "library decoder reports the stream's byte length")
 	vAssert(in.Len() == 1, "library decoder leaves the following byte unread")
+	vObserve(got)
 	vAssert(len(got) == len(dec), "library decoder value count")
 	if len(got) < n {
 		return
@@ -246,10 +248,12 @@ func HarnessRLEDec(w int, k int, maxCount int, bigCount int, g1, g2, g3 int, fau
 	in := bytes.NewBuffer(stream)
 	dec, _ := New(int32(w), 0)
 	got, n, err := dec.Read(in)
+	vObserve(stream)
 	vAssert(err == nil, "accepts well-formed foreign stream")
 	if err != nil {
 		return
 	}
+	vObserve(got)
 	vAssert(n == ln+4, "reports prefix+4 bytes consumed")
 	vAssert(in.Len() == 1, "following byte left unread")
 	vAssert(len(got) == len(want), "value count")
